@@ -65,6 +65,12 @@ def scalar_value(args: dict, clock: dict, fields: dict, mem: int, draws: float) 
     if vec is not None:
         for i, x in enumerate(np.asarray(vec, dtype=float).ravel()):
             v += (i + 1) * W_VEC * float(x)
+    mvec = args.get("mvec")
+    if mvec is not None:
+        v += 0.0021 * float(np.sum(np.asarray(mvec, dtype=float))) + 0.19 * len(np.asarray(mvec).ravel())
+    extra = args.get("extra")
+    if isinstance(extra, dict):
+        v += 0.77 * float(extra.get("touched", 0))
     if args.get("use_fields"):
         v += W_QE * float(fields.get("qe", 0.0)) + W_TEMP * float(fields.get("temperature", 0.0))
     v += W_STEP * clock["pipeline_count"] + W_TSTEP * clock["time_step"] + W_ABS * clock["absolute_time"]
